@@ -146,12 +146,27 @@ func SpecGen(csiGeom bool, maxRecs int) *rapid.Generator[Spec] {
 				continue
 			}
 			n := rapid.IntRange(1, maxRecs).Draw(t, "nrec")
+			crowded := rapid.IntRange(0, 39).Draw(t, "crowded") == 0
+			if crowded {
+				// several hundred records in one window: bins with more than 512 chunks
+				n = rapid.IntRange(500, 700).Draw(t, "crowd")
+			}
 			starts := make([]int, n)
 			for i := range starts {
 				starts[i] = posGen(limit, s.MinShift).Draw(t, "start")
 			}
+			if crowded {
+				base := starts[0] &^ (1<<uint(s.MinShift) - 1)
+				w := 1 << uint(s.MinShift)
+				for i := range starts {
+					starts[i] = base + (i*7)%w
+					if starts[i] > limit-1 {
+						starts[i] = limit - 1
+					}
+				}
+			}
 			// runs of records in neighbouring tiles are common in real data
-			if rapid.Bool().Draw(t, "dense") {
+			if !crowded && rapid.Bool().Draw(t, "dense") {
 				base := starts[0]
 				for i := range starts {
 					starts[i] = base + i*rapid.IntRange(0, 3<<uint(s.MinShift)).Draw(t, "gap")
@@ -163,7 +178,12 @@ func SpecGen(csiGeom bool, maxRecs int) *rapid.Generator[Spec] {
 			sort.Ints(starts)
 			for _, st := range starts {
 				r := IRec{Ref: ref, Start: st, Mapped: rapid.IntRange(0, 5).Draw(t, "mapped") != 0}
-				if r.Mapped {
+				if r.Mapped && crowded {
+					r.End = st + 1 + st%13 // short: most of them stay in the window's own bin
+					if r.End > limit {
+						r.End = limit
+					}
+				} else if r.Mapped {
 					r.End = st + lenGen(st, limit, s.MinShift).Draw(t, "len")
 				} else {
 					r.End = st + 1
